@@ -251,6 +251,19 @@ theorem statusvar_error_disables (m : Method) (hm : m.effect ≠ .coroutine)
   · rfl
   · simp [epilogue, herr]
 
+/-- A rejected argument (NULL for an io/`ptr` parameter, a number outside its refinement) of ANY public
+method with a prologue disables the object; status-returning methods answer `#bad argument`
+(the code as repaired by fixes/C11-cgen-argcheck-return-type.patch), the others return a zero value. -/
+theorem bad_argument_disables (m : Method) (hsk : m.skipsPrologue = false) (o : Obj)
+    (hmb : magicBad m o = false) (args : List ArgVal) (hbad : argsBad m.args args = true)
+    (b : BodyRes) :
+    callMethod m o false args b =
+      ({ o with magic := DISABLED },
+        if m.returnsStatus then .st (.err .badArgument) else .zero) := by
+  rw [callMethod_checked _ _ _ _ _ hsk]
+  unfold callMethodChecked
+  simp [hmb, hbad, argFailRet]
+
 theorem callMethod_disabled (m : Method) (o : Obj) (sn : Bool) (args : List ArgVal) (b : BodyRes)
     (hd : o.magic = DISABLED) :
     (callMethod m o sn args b).1.magic = DISABLED ∧
